@@ -5,9 +5,18 @@ package gosym
 
 import (
 	"fmt"
+	"os"
 	"sort"
 	"strings"
+	"time"
 )
+
+func short(s string, n int) string {
+	if len(s) > n {
+		return s[:n] + "…"
+	}
+	return s
+}
 
 // abortPath ends the current path (it is never seen by target recover()).
 type abortPath struct {
@@ -67,9 +76,24 @@ type pathCtx struct {
 
 	funcsEntered map[string]int
 	stubs        map[string]int
+	ufApps       []ufApp
+	siteOf       func() string
+	forkSites    []string
 }
 
 func (c *pathCtx) replaying() bool { return len(c.trace) < len(c.prefix) }
+
+func (c *pathCtx) realBody(name string) bool {
+	if c.opts == nil {
+		return false
+	}
+	for _, p := range c.opts.RealBodies {
+		if strings.HasPrefix(name, p) {
+			return true
+		}
+	}
+	return false
+}
 
 // NewVar declares a named symbolic input (stable across re-executions).
 func (c *pathCtx) NewVar(name string, s Sort) *Term {
@@ -139,18 +163,25 @@ func (c *pathCtx) branch(cond *Term) bool {
 	if c.opts != nil && c.opts.MaxDecisions > 0 && c.symDecisions > c.opts.MaxDecisions {
 		panic(abortPath{"bound-exceeded", fmt.Sprintf("more than %d symbolic decisions on one path", c.opts.MaxDecisions)})
 	}
-	rT := c.sess.Check(cond, c.feasMs())
+	t0 := time.Now()
+	rT := c.feas(cond)
 	if rT == Unsat {
 		c.trace = append(c.trace, traceEntry{Kind: tkBranch, Val: false, Forced: true})
 		return false
 	}
-	rF := c.sess.Check(Not(cond), c.feasMs())
+	rF := c.feas(Not(cond))
+	if d := time.Since(t0); d > 2*time.Second && c.eng.Progress {
+		fmt.Fprintf(os.Stderr, "slow branch (%.1fs, %v/%v) after %s: %s\n", d.Seconds(), rT, rF, traceString(c.trace), short(cond.String(), 300))
+	}
 	if rF == Unsat {
 		c.trace = append(c.trace, traceEntry{Kind: tkBranch, Val: true, Forced: true})
 		return true
 	}
 	if rT == Unknown || rF == Unknown {
 		c.uncertain = true
+	}
+	if c.siteOf != nil {
+		c.forkSites = append(c.forkSites, c.siteOf())
 	}
 	// both sides (possibly) feasible: fork
 	alt := make([]traceEntry, len(c.trace)+1)
@@ -161,6 +192,15 @@ func (c *pathCtx) branch(cond *Term) bool {
 	c.sess.Assert(cond)
 	c.pcSize++
 	return true
+}
+
+// feas is a feasibility query: only the back ends with a per-query time cap
+// are consulted, so an undecidable non-linear condition costs seconds, not a
+// full portfolio time-out (unknown = both sides are explored).
+func (c *pathCtx) feas(cond *Term) Result {
+	c.sess.FeasOnly = true
+	defer func() { c.sess.FeasOnly = false }()
+	return c.sess.Check(cond, c.feasMs())
 }
 
 func (c *pathCtx) assume(cond *Term) {
@@ -181,7 +221,7 @@ func (c *pathCtx) assume(cond *Term) {
 		c.pcSize++
 		return
 	}
-	r := c.sess.Check(cond, c.feasMs())
+	r := c.feas(cond)
 	if r == Unsat {
 		c.assumeCuts++
 		panic(abortPath{"assume-false", cond.String()})
@@ -198,6 +238,10 @@ func (c *pathCtx) modelOf(extra *Term) map[string]string {
 	terms := append([]*Term{}, c.vars...)
 	for _, n := range c.notes {
 		terms = append(terms, n.Terms...)
+	}
+	for _, u := range c.ufApps {
+		terms = append(terms, u.Args...)
+		terms = append(terms, u.Ret)
 	}
 	vals, ok := c.sess.Model(extra, terms, c.assertMs())
 	if !ok {
@@ -216,7 +260,37 @@ func (c *pathCtx) modelOf(extra *Term) map[string]string {
 		}
 		m["note:"+n.Label] = strings.Join(ss, ",")
 	}
+	// uninterpreted-function applications: "uf:NAME|a1,a2,..." -> result,
+	// consumed by the native stubs during replay
+	for _, u := range c.ufApps {
+		var as []string
+		for range u.Args {
+			as = append(as, normNum(vals[k]))
+			k++
+		}
+		m["uf:"+u.Name+"|"+strings.Join(as, ",")] = normNum(vals[k])
+		k++
+	}
 	return m
+}
+
+type ufApp struct {
+	Name string
+	Args []*Term
+	Ret  *Term
+}
+
+// RecordUF remembers an uninterpreted-function application for replay.
+func (c *pathCtx) RecordUF(name string, ret *Term, args ...*Term) {
+	c.ufApps = append(c.ufApps, ufApp{name, args, ret})
+}
+
+func normNum(s string) string {
+	s = strings.TrimSpace(s)
+	if strings.HasPrefix(s, "(- ") {
+		return "-" + strings.TrimSpace(strings.TrimSuffix(strings.TrimPrefix(s, "(- "), ")"))
+	}
+	return s
 }
 
 func (c *pathCtx) assert(label string, cond *Term, pos string) {
